@@ -393,7 +393,15 @@ def _dispatch(t):
 
 def run(rep):
     depth = rep.pick(2, 3)
-    tg = all_targets(depth, False, lean_outer=rep.quick)
+    if rep.quick:
+        tg = all_targets(2, False, lean_outer=True)
+    else:
+        # thorough: every depth-2 target with the full form set, plus every 6th (in enumeration order) of the depth-3 targets built
+        # with the corner form set on the outer levels (the complete depth-3 space has 2.3e5 targets x ~600 writes each)
+        full2 = all_targets(2, False, lean_outer=False)
+        d3 = [t for t in all_targets(3, False, lean_outer=True) if t not in set(full2)]
+        tg = full2 + d3[::6]
+        rep.setcov("depth3_targets_total", len(d3))
     tg_rows = all_targets(rep.pick(1, 2), True, lean_outer=rep.quick)
     tg_rows = [t for t in tg_rows if uses_row(t)]
     tasks = [("w", (ch, False)) for ch in chunks(tg, rep.pick(12, 12))]
